@@ -17,7 +17,8 @@ func init() {
 			"(3) no re-entrancy — no method calls, while holding a lock of its receiver, a method of the same receiver that acquires that lock again (sync.Mutex self-deadlock, recursive RLock); " +
 			"(4) lock order — the inter-procedural acquired-while-held graph restricted to the in-scope locks is acyclic; " +
 			"(5) the database-wide transaction lock is released on every exit of Commit/Rollback after the active swap (a leaked lock blocks every later transaction: shared with C04/C17). " +
-			"(6) pairing: in every function of pkg/ a lock acquired on a path is released, or a deferred unlock is registered, before every return that path can reach (hand-over functions listed with their releaser).",
+			"(6) pairing: in every function of pkg/ a lock acquired on a path is released, or a deferred unlock is registered, before every return that path can reach (hand-over functions listed with their releaser). " +
+			"Added after blind round 5: no blocking channel send while a lock is held (the flusher is signalled with select/default).",
 		NotDecided: "absence of data races in general (needs a happens-before detector over executions), panics from index arithmetic, goroutine leaks, Close concurrent with other calls (out of the property's scope).",
 		Rules:      []func(*Ctx, *Reporter){ruleGuardedBy, ruleAtomicConsistency, ruleReentrancyScope, ruleLockOrder, ruleTxRelease, ruleLockReleasedOnEveryExit, ruleNoBlockingChanUnderLock},
 	})
